@@ -54,7 +54,14 @@ func c12Resolver(sources []map[string]any, defScheme bool) (*Resolver, error) {
 	})
 	a := NewProviderFactory(func(ProviderSettings) Provider {
 		return c12Prov{"aa", func(uri string) (*Retrieved, error) {
-			v, ok := c12Table[strings.TrimPrefix(uri, "aa:")]
+			key := strings.TrimPrefix(uri, "aa:")
+			v, ok := c12Table[key]
+			if !ok && strings.Contains(key, "$") {
+				// a lenient provider: it would serve a name that contains $ - it must never be asked (the resolver reports
+				// "$ in a reference name" itself, with and without an explicit scheme); a provider that rejected such names
+				// would hide a resolver that forgets to
+				return NewRetrievedFromYAML([]byte("lenient"))
+			}
 			if !ok {
 				return nil, fmt.Errorf("unknown key %q", uri)
 			}
